@@ -110,3 +110,10 @@ package livesql
 //@   ensures err == nil && (v is string) ==> result == v
 //@   ensures err == nil && (v is []byte) ==> result == v
 //@   ensures err == nil && (v is time.Time) ==> result == v
+
+// ---- C07 (decoding): the column map has one entry per struct column, in struct order (-1 for a column the table lacks), so
+// column i of the struct is always decoded from source[i] - never shifted by a missing column.
+//@ func buildColumnMap
+//@   assume table != nil
+//@   ensures err == nil ==> result != nil && len(result.source) == len(table.Columns)
+//@   loop 2 invariant -1 <= rangeindex && rangeindex < len(table.Columns) && columnMap != nil && fresh(columnMap) && len(columnMap.source) == rangeindex+1
